@@ -19,6 +19,7 @@ import TonVerif.Generated.ProofChecks
 import TonVerif.Proofs.SrcProof
 import TonVerif.Proofs.SrcProofCtor
 import TonVerif.Proofs.SrcLocate
+import TonVerif.Proofs.SrcLocateWalk
 
 namespace TonVerif.Properties.C11
 open TonVerif TonVerif.Model TonVerif.Proofs.CellSpec TonVerif.Proofs.Prune TonVerif.Proofs.Merkle
@@ -1393,6 +1394,33 @@ theorem c11_src_account_complete_full_partial {Shard ShardAccount : Type} (fromB
     rw [src_check_account_proof_eq fromBoc deser get cellOf srcOpaque proof blk addr state hwalk, hb, Option.bind_some,
       c11_account_complete srcOpaque p0 p1 hdr st acc state blk addr sh h0 hhdr hsh hst hs h1 hm (hh acc hm)]
     rfl
+
+/-- STEP (a) towards `c11_src_walk`: the HmLabel reader that the dictionary walks of the parser files use (`(hmLabel n).dec`, the spec
+codec of hashmap.tlb) IS the C10 label reader `Hashmap.deserializeHml` (tied to parse.py `deserialize_hml` for all inputs by
+`c10_src_label_reader`) on EVERY bit string and remaining key length: same decision to raise, same label length, label bits and rest. -/
+theorem c11_src_label_reader (n : Nat) (bits : Bits) (refs : List Tlb.Cell) :
+    ((Tlb.hmLabel n).dec ⟨bits, refs⟩).map labelView =
+      (Hashmap.deserializeHml bits (n : Int)).map fun t => (t.1, t.2.1, t.2.2, refs) :=
+  hmLabel_dec_eq n bits refs
+
+/-- STEP (b) towards `c11_src_walk`: the augmented-dictionary walk of the parser files (`Rd.augWalk`: `parse_aug` as a fuel recursion over
+`Tlb.Cell`) IS the hand model's `parseAugP` (structural recursion over constructed cells, labels by the C10 reader) on EVERY constructed
+cell - pruned branches anywhere, malformed labels, missing references - for every prefix, every remaining key length below the fuel and
+every pair of extra / value readers that agree (`ReadersAgree`: they succeed on the same slices, the extra readers leave the same rest, the
+value readers return the same `.cell[0]`): same decision to raise, same keys in the same order, same `.cell[0]` per entry. -/
+theorem c11_src_aug_walk {x y : Tlb.Frag → Tlb.Rd.R} {decX : PSlice → Option PCell} {decY : PSlice → Option PSlice}
+    (h : ReadersAgree x y decX decY) (fuel n : Nat) (pfx : Bits) (c : PCell) (hn : n < fuel) :
+    (Tlb.Rd.augWalk x y fuel n pfx (tcell c)).map srcEntries = (parseAugP decY decX c (n : Int) pfx).map mdlEntries :=
+  augWalk_eq h fuel n pfx c hn
+
+/-- the VALUE reader of the accounts dictionary meets `ReadersAgree.x_cell`: the regenerated `ShardAccount.deserialize` (constructor argument
+`cell=` kept) returns on a leaf slice exactly when `readShardAccount` at the regenerated `Account` parser does, and its `.cell[0]` is the
+cell the model returns.  (The EXTRA reader `DepthBalanceInfo` against `readDepthBalance` is open: it needs `Rd.dictWalk` = `Hashmap.parseEdge`
+for the extra-currency dictionary.) -/
+theorem c11_src_shard_account_reader (s : PSlice) :
+    (Tlb.SrcLoc.ShardAccount false (psliceFrag s)).map (fun p => cell0 p.1) =
+      (readShardAccount srcOpaque s).map (fun a => some (tcell a)) :=
+  shardAccount_agree s
 
 end SrcWalk
 
